@@ -82,7 +82,7 @@ def trans_check(case):
         vals = [None] + list(range(-ns - 1, ns + 2))
         if nc == 385 or ns > 2 * CHUNK + 1:
             vals = [None, 0, 1, CHUNK - 1, CHUNK, CHUNK + 1, ns - 1, ns, ns + 1, -1, -CHUNK, -ns]
-        for a, b, st in itertools.product(vals, vals, (None, 1, 2, 3, -1)):
+        for a, b, st in itertools.product(vals, vals, (None, 1, 2, 3, -1, -2, -3)):
             sl = slice(a, b, st)
             x = srb[sl, :]
             try:
@@ -92,7 +92,7 @@ def trans_check(case):
                 continue
             ntr += 1
             if x.shape != y.shape or x.dtype != y.dtype or not np.array_equal(x, y):
-                key = "transparent:slice" + (":negative-step" if st == -1 else "")
+                key = "transparent:slice" + (":negative-step" if (st or 1) < 0 else "")
                 seen.setdefault(key, "ns=%d nc=%d %s: sr[%r, :] on the compressed file has shape %r, on the original %r%s"
                                 % (ns, nc, mode, sl, y.shape, x.shape, "" if x.shape != y.shape else " (values differ)"))
         for i in range(-ns, ns):
